@@ -331,6 +331,7 @@ pub fn run_exhaustive(min_shift: u8, depth: u8, lo: usize, hi: usize, o: &mut Ca
     o.count("binning_exhaustive_bin_lookups", lookups);
     o.count("binning_exhaustive_pairs_decided_millions", (pairs / 1_000_000) as u64);
     o.count(&format!("binning_exhaustive_pairs_decided[{min_shift},{depth}]"), pairs.min(u64::MAX as u128) as u64);
+    o.count(&format!("binning_exhaustive_region_starts[{min_shift},{depth}]"), (hi.min(n + 1) - lo) as u64);
     if lo == 1 {
         o.count(&format!("binning_exhaustive_features_indexed[{min_shift},{depth}]"), t.features);
         o.count(&format!("binning_exhaustive_bins_used[{min_shift},{depth}]"), t.bins_used as u64);
